@@ -198,6 +198,18 @@ pub fn run(ctx: &Ctx) -> i32 {
     let nproc = ctx.tier.pick(4u64, 16u64);
     let nseeds = ctx.tier.pick(16u64, 256u64);
     sweep(&col, nproc, nseeds);
+    // the same query over the same final content prints the same whichever way the content arrives: batch over split
+    // files / a pipe, the command line program, follow mode with the lines appended at once, one by one and in three
+    // fragments each (cuts fall inside multi-byte characters)
+    {
+        let def = "CREATE TABLE t(line = '^([^ ]+) (.*)$', line[1] => k TEXT, line[2] => s TEXT);";
+        let input: Vec<String> = vec!["é café".into(), "b ünï".into(), "é 😀😀".into(), "c plain".into(), "b éé".into()];
+        let mut cases: Vec<(String, String, Vec<String>, bool)> = Vec::new();
+        for st in ["SELECT k, s FROM t", "SELECT input FROM t", "SELECT k, COUNT(*), STRING_AGG(s, '|') FROM t GROUP BY k", "SELECT DISTINCT k FROM t", "SELECT upper(s), length(s) FROM t WHERE k = 'é'"] {
+            cases.push((def.to_string(), st.to_string(), input.clone(), true));
+        }
+        crate::drivers::run_layer(&col, &cases, &|_| "non-ascii".to_string());
+    }
     finish(
         ctx,
         &col,
